@@ -5,6 +5,7 @@ This module creates the mocks/ directory structure with mock implementations
 for both tag-based endpoint clients and the main API client.
 """
 
+import re
 import tempfile
 import traceback
 from collections import defaultdict
@@ -16,6 +17,16 @@ from pyopenapi_gen.core.utils import NameSanitizer
 
 from ..visit.client_visitor import ClientVisitor
 from ..visit.endpoint.endpoint_visitor import EndpointVisitor
+
+
+def _tag_score(t: str) -> tuple[bool, int, int, str]:
+    """Canonical-spelling preference for a tag; mirrors EndpointsEmitter.emit and ClientVisitor.visit."""
+    is_pascal = bool(re.search(r"[a-z][A-Z]", t)) or bool(re.search(r"[A-Z]{2,}", t))
+    words = re.findall(r"[A-Z]?[a-z]+|[A-Z]+(?![a-z])|[0-9]+", t)
+    words += re.split(r"[_-]+", t)
+    word_count = len([w for w in words if w])
+    upper = sum(1 for c in t if c.isupper())
+    return (is_pascal, word_count, upper, t)
 
 
 class MocksEmitter:
@@ -111,14 +122,20 @@ class MocksEmitter:
             raise
 
     def _group_operations_by_tag(self, spec: IRSpec) -> dict[str, list[IROperation]]:
-        """Group operations by their OpenAPI tag."""
-        operations_by_tag: dict[str, list[IROperation]] = defaultdict(list)
+        """Group operations by tag exactly as EndpointsEmitter and ClientVisitor do.
 
+        An operation belongs to the client of every one of its tags, spelling variants of one tag
+        (``Users`` / ``users``) share one client, and the group is named after the canonical spelling,
+        so every endpoint client gets a mock with the same operations and MockAPIClient mirrors APIClient.
+        """
+        ops_by_key: dict[str, list[IROperation]] = defaultdict(list)
+        candidates_by_key: dict[str, list[str]] = defaultdict(list)
         for operation in spec.operations:
-            tag = operation.tags[0] if operation.tags else "default"
-            operations_by_tag[tag].append(operation)
-
-        return operations_by_tag
+            for tag in operation.tags or ["default"]:
+                key = NameSanitizer.normalize_tag_key(tag)
+                ops_by_key[key].append(operation)
+                candidates_by_key[key].append(tag)
+        return {max(candidates_by_key[key], key=_tag_score): ops for key, ops in ops_by_key.items()}
 
     def _generate_mock_endpoints_init(self, tag_tuples: list[tuple[str, str, str]]) -> str:
         """Generate __init__.py for mocks/endpoints/ directory."""
